@@ -5,6 +5,7 @@
   sequence of requests.
 -/
 import AnyVecModel.Proofs.Vec
+import AnyVecModel.Proofs.KernelHeap
 namespace AnyVec
 namespace C18
 
@@ -132,6 +133,17 @@ def emptyHeap : VecSt :=
     cells := [], len := 0, gen := 0, live := true }
 example : (resizes emptyHeap [4, 8, 9223372036854775807, 2, 0]).map (·.2) =
     some [.alloc 32 8, .realloc 32 64 8, .realloc 64 16 8, .dealloc 16 8] := by decide
+
+/-- **source tie**: the model's `HeapMem::resize` is the one of `/repo/src/mem/heap.rs` as re-translated on this run:
+nothing when the size is unchanged; for zero-sized elements only the size is recorded; shrinking to 0 is one
+`dealloc` of the current block (`size * capacity` bytes, element alignment); otherwise the new byte size is a checked
+multiplication and a `Layout::from_size_align` validity check (both "capacity overflow") *before* any allocator call,
+then one `alloc` (from capacity 0) or one `realloc` from the current block's layout to the new byte size; the size
+is recorded last; `impl Drop for HeapMem` is `resize(0)`. -/
+theorem heap_protocol_is_the_source (v : VecSt) (n : Nat) :
+    v.heapResize n = KernelTie.runA v [] (Gen.Kernel.heap_resize_cmds v.cap v.size v.align n) ∧
+    Gen.Kernel.heap_drop_resize = 0 :=
+  KernelTie.heap_resize_tie v n
 
 end C18
 end AnyVec
